@@ -14,6 +14,10 @@
 (* stayed aligned.  Overwriting an output with a different value between two   *)
 (* exports and deletions are outside the property, hence not actions.          *)
 (*                                                                             *)
+(* Besides its own file, the database may read files written by OTHER          *)
+(* databases (update_from_hdf), at any moment between its exports: the content *)
+(* of such a file is a parameter of the action UpdateFrom, not a variable.     *)
+(*                                                                             *)
 (* disk is the *content* of the file (what a loader must return); the way the  *)
 (* file lays this content out (x / k / v / arr_i groups, index bookkeeping of  *)
 (* the append mode, pending buffer) is in HDFStoreImpl, which refines this     *)
@@ -139,6 +143,26 @@ Update ==
   /\ pending' = pending \cup KeysOf(disk)
   /\ UNCHANGED <<disk, exists, descr>>
 
+\* db.update_from_hdf(other path): ANOTHER file, written by another database (another run, another
+\* process, a colleague), is read into the (possibly non-empty) working database, possibly between two
+\* append exports of the working database to its own file.  The other file holds any database:
+\* d = <<<<key, names>>, ...>> lists its entries in the order of the file; it may bring new points,
+\* new outputs at points the working database (and its file) already has, both or nothing.  The
+\* points that are new to the working database are numbered as Store numbers them (by arrival), and
+\* the value of output n at a point is Val(point, n) in every file (no overwriting: see the header).
+\* Everything that was read is queued for the next export, as if it had been stored one by one.
+ForeignOK(d) ==
+  /\ \A i, j \in 1..Len(d) : d[i][1] = d[j][1] => i = j
+  /\ LET new == SelectSeq(d, LAMBDA p : p[1] \notin KeysOf(db))
+     IN \A i \in 1..Len(new) : new[i][1] = Len(db) + i
+ForeignDb(d) == [i \in 1..Len(d) |-> Entry(d[i][1], d[i][2])]
+ForeignFiles(n) == UNION {[1..m -> (1..NKeys) \X (SUBSET Names)] : m \in 1..n}
+UpdateFrom(d) ==
+  /\ ForeignOK(d)
+  /\ db' = StoreAll(db, ForeignDb(d), 1)
+  /\ pending' = pending \cup KeysOf(ForeignDb(d))
+  /\ UNCHANGED <<disk, exists, descr>>
+
 \* the working problem is replaced by OptimizationProblem.from_hdf(path)
 ReloadProblem ==
   /\ WithProblem /\ descr
@@ -151,6 +175,7 @@ Next == \/ \E key \in 1..NKeys, names \in SUBSET Names : Store(key, names) \/ St
         \/ Reload
         \/ Update
         \/ ReloadProblem
+        \/ \E d \in ForeignFiles(NKeys) : UpdateFrom(d)
 Spec == Init /\ [][Next]_avars
 
 -----------------------------------------------------------------------------
